@@ -352,4 +352,12 @@ PROPS = {
         "trusted_base": COMMON_TB + ["cargo feature resolution"],
         "assumptions": ["the same seed produces the same corpus in every configuration (checked: requests common to two configurations are compared pairwise)"],
     },
+    "C10": {
+        "streams": ["ledger"],
+        "rule": "an instrumented element type (global ledger of ids; its decoder reads one byte: constructs, fails as malformed, panics, or finds the input exhausted) decoded inside [T;N], Box<[T;N]>, Rc<[T;N]>, Arc<[T;N]>, a repr(transparent) newtype over [T;N] (derived decode_into) and its Box, [Box<T>;N], [[T;2];N], [Option<T>;N], Vec, VecDeque, LinkedList, Box<Vec>, Vec<Box>, BTreeMap, Option, Result, tuples, Box<tuple>, a derived struct (array + skipped field + Vec + Box) and a derived enum; N in {0,1,2,3,5,8,17,40} (thorough adds 4,6,7,16,31,32,33); EXHAUSTIVE over that grid: the no-failure case and every failure position k < N x {input exhausted, malformed element, panic in the element decoder}; plus a memory limit hit at every k inside [Box<T>;N] and a depth limit inside Vec<Box<T>>. Each case under catch_unwind; oracle: after the result (if any) is dropped every constructed id was dropped exactly once, no id dropped that was never constructed, a successful decode had dropped nothing and constructed all N; the (outcome, constructed, dropped, handed-over) summary is compared with the model for the array / boxed-array / owner-collection shapes. non-trivial = distinct request whose model answer is not `err`",
+        "level_text": "Proved in Lean on an explicit event model of the hand-rolled ownership paths, for EVERY length N, failure position and kind: [T;N]::decode_into either constructs and hands over all N elements (none dropped) or stops at the first failing element k, drops exactly the k constructed elements - each once, never an unconstructed one - and hands nothing over (also when the element decoder panics: the guard runs on unwind); without drop glue the guard does nothing; Box::decode_wrapped allocates its block at most once and frees it exactly when decoding fails, without touching the payload's own ledger. Tied to src/codec.rs by replaying the exhaustive failure grid on the real code with a ledger-instrumented element type.",
+        "level_note": "Partial: Rust's drop elaboration (locals dropped on `?`, unwinding order) is built into the model as the language rule it is; use-after-free and reads of uninitialised memory are not expressible in the ledger model - a heap misuse is visible only as a ledger imbalance or a crashed harness (which the check reports as a violation without a minimal input). Miri is not run by the registered commands.",
+        "trusted_base": COMMON_TB + ["Rust drop and unwinding semantics; catch_unwind"],
+        "assumptions": ["the element type's Drop only records"],
+    },
 }
